@@ -357,4 +357,29 @@ example : (exec (start 4) [.tick 3, .enter, .tick 2, .exit, .tick 4]).pc = .fire
 example : (exec (start 4) [.tick 3, .activity, .tick 3]).pc ≠ .fired ∧
           (exec (start 4) [.tick 3, .activity, .tick 4]).pc = .fired := by decide
 
+-- audit round 6 (cross-audit by b-c03): the guards of the step-local theorems are jointly satisfiable on reachable states
+-- never_fires_while_blocked / active_not_closed: a reachable non-fired state and a step that fires
+example : ∃ (s : St) (o : Op), (s.can = true ↔ s.blocker = 0) ∧ 0 < s.timeout ∧ s.last ≤ s.now ∧ s.pc ≠ .fired ∧
+    (step s o).pc = .fired :=
+  ⟨exec (start 4) [.tick 3, .activity, .tick 3], .tick 1, by decide⟩
+-- ... also right after hooks were pending (the firing step is a tick after the last exit)
+example : ∃ (s : St) (o : Op), (s.can = true ↔ s.blocker = 0) ∧ s.pc ≠ .fired ∧ (step s o).pc = .fired ∧ s.last = 5 :=
+  ⟨exec (start 4) [.tick 3, .enter, .enter, .tick 2, .exit, .exit], .tick 4, by decide⟩
+-- restart_after_last_hook: its guards hold on a reachable state whose `last` is stale, so `last = now` is informative
+example : ∃ s : St, 0 < s.timeout ∧ s.blocker = 1 ∧ s.can = false ∧ s.pc ≠ .fired ∧ s.last + s.timeout ≤ s.now ∧
+    (step s .exit).last = s.now ∧ (step s .exit).pc ≠ .fired :=
+  ⟨exec (start 4) [.tick 3, .enter, .tick 2], by decide⟩
+-- idle_closes: both guards hold on a reachable state
+example : (exec (start 4) [.tick 3, .enter, .tick 2, .exit, .tick 4]).blocker = 0 ∧
+    (exec (start 4) [.tick 3, .enter, .tick 2, .exit, .tick 4]).last + (exec (start 4) [.tick 3, .enter, .tick 2, .exit, .tick 4]).timeout
+      ≤ (exec (start 4) [.tick 3, .enter, .tick 2, .exit, .tick 4]).now := by decide
+-- only the LAST exit restarts the idle period: with two hooks pending, one exit leaves the watchdog blocked past any deadline
+example : (exec (start 4) [.enter, .enter, .tick 5, .exit, .tick 5]).pc ≠ .fired ∧
+    (exec (start 4) [.enter, .enter, .tick 5, .exit, .tick 5]).blocker = 1 ∧
+    (exec (start 4) [.enter, .enter, .tick 5, .exit, .tick 5, .exit]).pc ≠ .fired ∧
+    (exec (start 4) [.enter, .enter, .tick 5, .exit, .tick 5, .exit, .tick 4]).pc = .fired := by decide
+-- activity while a hook is pending does not re-arm the watchdog, and a tick of 0 never fires an open connection early
+example : (exec (start 4) [.enter, .tick 9, .activity, .tick 9]).pc ≠ .fired ∧
+    (exec (start 4) [.tick 3, .tick 0]).pc ≠ .fired := by decide
+
 end MitmVerif.Props.C10
